@@ -229,7 +229,9 @@ func shrinkCandidates(p *plan.Plan, v plan.Violation) []*plan.Plan {
 			n := len(p.Sessions[si].Steps)
 			if n > 3 {
 				add(func(q *plan.Plan) bool { dropSteps(q, si, n/2, n); return true })
-				add(func(q *plan.Plan) bool { dropSteps(q, si, 0, n/2); return true })
+				if !isConstructor(p.Sessions[si].Steps[0].Op) {
+					add(func(q *plan.Plan) bool { dropSteps(q, si, 0, n/2); return true })
+				}
 			}
 		}
 		for si := range p.Sessions {
@@ -240,6 +242,9 @@ func shrinkCandidates(p *plan.Plan, v plan.Violation) []*plan.Plan {
 			}
 			for k := n - 1; k >= 0; k-- {
 				k := k
+				if isConstructor(p.Sessions[si].Steps[k].Op) {
+					continue // a session keeps the constructor of the handle it uses
+				}
 				add(func(q *plan.Plan) bool { dropSteps(q, si, k, k+1); return true })
 			}
 		}
@@ -257,6 +262,14 @@ func shrinkCandidates(p *plan.Plan, v plan.Violation) []*plan.Plan {
 		}
 	}
 	return out
+}
+
+func isConstructor(op string) bool {
+	switch op {
+	case "path_new", "query_new", "query_build", "enc_new", "dec_new":
+		return true
+	}
+	return false
 }
 
 func dropSession(q *plan.Plan, i int) {
